@@ -201,7 +201,77 @@ pub fn run(tier: &str) -> Run {
             run.sample(json!({"label": cases[i].label, "first_bytes": cases[i].bytes.iter().take(24).collect::<Vec<_>>()}));
         }
     }
-    // totality: every 4-byte prefix over the encoding-relevant bytes followed by a body in three encodings
+    // include files in every encoding: the main file and the included file (A2L level and inside the A2ML block) are encoded
+    // independently of each other; the result must be that of the flattened text
+    {
+        let head = "ASAP2_VERSION 1 71\n/begin PROJECT p \"é\"\n/begin MODULE m \"\"\n";
+        let tail = "/begin MEASUREMENT m2 \"ß€\" UBYTE NO_COMPU_METHOD 0 0 0 255 /end MEASUREMENT\n/end MODULE\n/end PROJECT\n";
+        let inc = "/* é😀 */\n/begin MEASUREMENT m1 \"x😀é\" UBYTE NO_COMPU_METHOD 0 0 0 255 /end MEASUREMENT\n";
+        let aml = "/* ß😀 */ block \"IF_DATA\" taggedunion { \"VX\" uint; };\n";
+        let mut combos: Vec<(String, Vec<(String, Vec<u8>)>, String)> = Vec::new();
+        for em in ENCODINGS {
+            for ei in ENCODINGS {
+                for pad in [0usize, 1] {
+                    let inc_p = format!("{inc}{}", " ".repeat(pad));
+                    let main = format!("{head}/include \"inc.a2l\"\n{tail}");
+                    combos.push((format!("main as {em}, included file as {ei} pad {pad}"), vec![("main.a2l".into(), encode(&main, em)), ("inc.a2l".into(), encode(&inc_p, ei))], format!("{head}{inc_p}\n{tail}")));
+                    let main2 = format!("{head}/begin A2ML\n/include \"p.aml\"\n/end A2ML\n/begin IF_DATA VX 5 /end IF_DATA\n/begin IF_DATA VY 5 /end IF_DATA\n{tail}");
+                    let aml_p = format!("{aml}{}", " ".repeat(pad));
+                    combos.push((format!("main as {em}, A2ML include file as {ei} pad {pad}"), vec![("main.a2l".into(), encode(&main2, em)), ("p.aml".into(), encode(&aml_p, ei))], format!("{head}/begin A2ML\n{aml_p}\n/end A2ML\n/begin IF_DATA VX 5 /end IF_DATA\n/begin IF_DATA VY 5 /end IF_DATA\n{tail}")));
+                }
+            }
+        }
+        let ires = par_map(
+            combos.len(),
+            &|i| {
+                let (_, files, flat) = &combos[i];
+                use std::hash::{Hash, Hasher};
+                let mut h = std::collections::hash_map::DefaultHasher::new();
+                std::thread::current().id().hash(&mut h);
+                let d = dir.join(format!("inc{}", h.finish() % 4096));
+                let _ = std::fs::create_dir_all(&d);
+                for (n, b) in files {
+                    if std::fs::write(d.join(n), b).is_err() {
+                        return Err(("machinery", "cannot write scratch file".to_string()));
+                    }
+                }
+                // (the A2ML text keeps its own /include directive: compare what the definition is used for)
+                let obs = |r: Result<(a2lfile::A2lFile, Vec<a2lfile::A2lError>), a2lfile::A2lError>| match r {
+                    Ok((f, log)) => {
+                        let m = &f.project.module[0];
+                        format!("ok: {} measurements {:?}, if_data valid {:?}, {} diagnostics", m.measurement.len(), m.measurement.iter().map(|x| x.long_identifier.clone()).collect::<Vec<_>>(), m.if_data.iter().map(|i| i.ifdata_valid).collect::<Vec<_>>(), log.len())
+                    }
+                    Err(e) => format!("err: {}", variant_of(&e)),
+                };
+                let a = guard(|| obs(a2lfile::load(d.join("main.a2l"), None, false))).map_err(|p| ("panic", p))?;
+                let b = guard(|| obs(a2lfile::load_from_string(flat, None, false))).map_err(|p| ("panic", p))?;
+                if a != b {
+                    return Err(("model-depends-on-encoding", format!("files give [{a}], the flattened text gives [{b}]")));
+                }
+                Ok(())
+            },
+            &|i| {
+                println!("MACHINERY-ERROR: C17 include case hangs: {}", combos[i].0);
+                std::process::exit(2);
+            },
+        );
+        for (i, r) in ires.into_iter().enumerate() {
+            run.evaluations += 1;
+            run.transitions += 2;
+            run.states.insert(fnv1a(combos[i].0.as_bytes()));
+            match r {
+                Ok(()) => run.outcome("include: equal to the flattened text"),
+                Err(("machinery", m)) => run.machinery(m),
+                Err((o, w)) => {
+                    let cls = if combos[i].0.contains("A2ML") { "a2ml-include" } else { "include" };
+                    let key = if o == "panic" { format!("C17/panic {}", vcore::explore::panic_key(&w)) } else { format!("C17/{o}/{cls}") };
+                    run.violation(key, format!("{}: {w}", combos[i].0), json!({"files": combos[i].1.iter().map(|(n, b)| (n.clone(), b.clone())).collect::<Vec<_>>(), "flat": combos[i].2}));
+                }
+            }
+        }
+        run.require("include: equal to the flattened text", 300);
+    }
+    // include files: main file x included file (A2L level and inside the A2ML block) in all 10 x 10 encoding combinations x 2 paddings against the flattened text; totality: every 4-byte prefix over the encoding-relevant bytes followed by a body in three encodings
     let alpha: [u8; 9] = [0x00, 0x41, 0xFE, 0xFF, 0xEF, 0xBB, 0xBF, 0xD8, 0xDC];
     let body = "ASAP2_VERSION 1 71 /begin PROJECT p \"é😀\" /begin MODULE m \"\" /end MODULE /end PROJECT";
     let bodies: Vec<Vec<u8>> = vec![body.as_bytes().to_vec(), encode(body, "utf16le"), encode(body, "utf16be"), encode(body, "utf32le"), encode(body, "utf32be")];
@@ -250,6 +320,23 @@ pub fn run(tier: &str) -> Run {
 }
 
 pub fn replay(v: &Value) -> Result<String, String> {
+    if let Some(files) = v.get("files").and_then(|f| f.as_array()) {
+        let dir = std::env::temp_dir().join(format!("verif-c17-replay-{}", std::process::id()));
+        let _ = std::fs::create_dir_all(&dir);
+        for f in files {
+            let n = f[0].as_str().unwrap_or("x");
+            let b: Vec<u8> = f[1].as_array().map(|a| a.iter().map(|x| x.as_u64().unwrap_or(0) as u8).collect()).unwrap_or_default();
+            std::fs::write(dir.join(n), b).map_err(|e| e.to_string())?;
+        }
+        let a = observe_file(&dir.join("main.a2l"));
+        let b = observe_str(v["flat"].as_str().unwrap_or(""));
+        let _ = std::fs::remove_dir_all(&dir);
+        return match (a, b) {
+            (Ok(Obs::Ok(..)), Ok(Obs::Ok(..))) | (Ok(Obs::Err(_)), Ok(Obs::Err(_))) => Ok("both load alike (model details are compared by the check)".into()),
+            (Err(p), _) | (_, Err(p)) => Err(format!("panic: {p}")),
+            (a, b) => Err(format!("files give {a:?}, flattened text gives {b:?}")),
+        };
+    }
     let bytes: Vec<u8> = v["bytes"].as_array().ok_or("no bytes")?.iter().map(|b| b.as_u64().unwrap_or(0) as u8).collect();
     let dir = std::env::temp_dir().join(format!("verif-c17-replay-{}", std::process::id()));
     let _ = std::fs::create_dir_all(&dir);
